@@ -63,3 +63,38 @@ pub fn run(args: &[String]) {
         }
     }
 }
+
+
+/// C18: `localtz FILE` - each line `Y M D H MI S`: a local date-time of the process's time zone (TZ). The value
+/// `Local.from_local_datetime(..)` is encoded and decoded; the decoded value must be the same INSTANT with the same
+/// offset (the codec stream prints local date-times only). One line per input: `ok <unix seconds> <offset seconds>`
+/// for the original and for the decoded value.
+pub fn localtz(args: &[String]) {
+    use chrono::{Offset, TimeZone};
+    let text = std::fs::read_to_string(&args[0]).expect("case file");
+    for line in text.lines() {
+        let t: Vec<i64> = line.split_whitespace().map(|x| x.parse().unwrap()).collect();
+        if t.len() != 6 {
+            continue;
+        }
+        let naive = chrono::NaiveDate::from_ymd_opt(t[0] as i32, t[1] as u32, t[2] as u32)
+            .and_then(|d| d.and_hms_opt(t[3] as u32, t[4] as u32, t[5] as u32));
+        let orig = naive.and_then(|n| chrono::Local.from_local_datetime(&n).single());
+        match orig {
+            None => println!("skip"),
+            Some(o) => {
+                let r = desert::serialize_to_byte_vec(&o).and_then(|b| desert::deserialize::<chrono::DateTime<chrono::Local>>(&b));
+                match r {
+                    Ok(d) => println!(
+                        "ok {} {} ; {} {}",
+                        o.timestamp(),
+                        o.offset().fix().local_minus_utc(),
+                        d.timestamp(),
+                        d.offset().fix().local_minus_utc()
+                    ),
+                    Err(e) => println!("err {e:?}"),
+                }
+            }
+        }
+    }
+}
